@@ -66,6 +66,7 @@ class HostGadget(Contract):
             ctx.assume(z3.Distinct(*xs))
         l = z3.Const('L!rk', LabelSort)
         ctx.assume(z3.ForAll([l], S0.rank(l) >= 0))
+        self._xs = xs
         sx = [Sym(x) for x in xs]
         if self.arg_builder is not None:
             args = [c] + self.arg_builder(sx)
@@ -78,6 +79,10 @@ class HostGadget(Contract):
                 k += n
         kwargs = dict(self.kw)
         return args, kwargs, {'h': h, 'xs': xs, 'S0': S0}
+
+    def background(self, it):
+        # precondition: operand labels are none of the generators' internal sentinel strings (_PLACEHOLDER_STR_, inf_label)
+        return [x != c for x in getattr(self, '_xs', []) for k, c in it.str_labels.items() if k in ('_PLACEHOLDER_STR_', 'inf_label')]
 
     def result_labels(self, it, result):
         out = []
